@@ -32,6 +32,7 @@ scratch=$(mktemp -d "${TMPDIR:-/tmp}/crsim-build-XXXXXX") || fail mktemp
 trap 'rm -rf "$scratch"' EXIT
 "$CACHE/bin/simgen-$fw_hash" "$REPO" "$scratch/repo" >&2 || fail "simgen refused the tree"
 for d in "$VERIF"/sim/access/*/; do
+  mkdir -p "$scratch/repo/$(basename "$d")"
   p=$(basename "$d")
   cp "$d"/*.go "$scratch/repo/$p/" || fail "accessor $p"
 done
